@@ -78,6 +78,8 @@ type ccPlain struct {
 	A    [2]uint16
 	St   ccInner
 	PSt  *ccInner
+	MB   map[string][20]int64 // element larger than 128 bytes: the slow map path
+	MS   map[string]string
 }
 
 // the same kinds with omitempty
@@ -198,6 +200,16 @@ func ccValues(ft reflect.Type) []reflect.Value {
 			add([]string{"", "<", "\xff"})
 		}
 	case reflect.Map:
+		if ft.Elem().Kind() == reflect.Array {
+			add(map[string][20]int64(nil))
+			add(map[string][20]int64{"b": {1, 2}, "a": {}})
+			break
+		}
+		if ft.Elem().Kind() == reflect.String {
+			add(map[string]string(nil))
+			add(map[string]string{"b": "<", "a": ""})
+			break
+		}
 		add(map[string]int16(nil))
 		add(map[string]int16{})
 		add(map[string]int16{"b": 256, "a": -1, "<": 0, "": 1, "\xff": 2})
@@ -307,6 +319,31 @@ type ccNest struct {
 	D [][]int
 	E map[string]map[string]int
 	F interface{}
+}
+
+// pointer-shaped ("direct interface") types at recursion and interface boundaries
+type ccPS struct {
+	P *int16
+}
+
+type ccDirect struct {
+	A    [1]*int16
+	S    ccPS
+	M    [1]map[string]int
+	AA   [1][1]*int16
+	AS   [1]ccPS
+	F    [1]func() `json:"-"`
+	Next *ccDirect   `json:",omitempty"`
+	Kids []ccDirect  `json:",omitempty"`
+	I    interface{} `json:",omitempty"`
+}
+
+type ccOnlyArr struct {
+	A [1]*ccOnlyArr
+}
+
+type ccOnlyPS struct {
+	S struct{ P *ccOnlyPS }
 }
 
 type ccRecF struct {
@@ -468,6 +505,39 @@ func TestVerifConform_encode(t *testing.T) {
 
 func TestVerifConform_options(t *testing.T) {
 	cases := 0
+	x := int16(256)
+	mkDirect := func(fill bool) ccDirect {
+		var d ccDirect
+		if fill {
+			d.A[0], d.S.P, d.AA[0][0], d.AS[0].P = &x, &x, &x, &x
+			d.M[0] = map[string]int{"k": 1}
+		}
+		return d
+	}
+	for _, fill := range []bool{false, true} {
+		d := mkDirect(fill)
+		in := mkDirect(!fill)
+		for k, iv := range []interface{}{nil, d.A, d.S, d.M, d.AA, d.AS, &d.A, &d.S, in, &in, [1]*int16{&x}, ccPS{&x}, [1][1]*int16{{nil}}, [1]map[string]int{nil}} {
+			cases++
+			v := mkDirect(fill)
+			v.I = iv
+			n := mkDirect(!fill)
+			n.I = iv
+			v.Next = &n
+			v.Kids = []ccDirect{n, mkDirect(fill)}
+			ccCompareMarshal(t, fmt.Sprintf("encode:direct-iface(fill=%v)#%d", fill, k), "ccDirect", v)
+			ccCompareMarshal(t, fmt.Sprintf("encode:direct-iface(fill=%v)#%d", fill, k), "*ccDirect", &v)
+			ccCompareMarshal(t, fmt.Sprintf("encode:direct-iface(fill=%v)#%d", fill, k), "bare interface value", iv)
+		}
+	}
+	oa := ccOnlyArr{A: [1]*ccOnlyArr{{A: [1]*ccOnlyArr{{}}}}}
+	ops := ccOnlyPS{}
+	ops.S.P = &ccOnlyPS{}
+	ops.S.P.S.P = &ccOnlyPS{}
+	for k, v := range []interface{}{oa, &oa, []ccOnlyArr{oa}, map[string]ccOnlyArr{"k": oa}, ops, &ops, []ccOnlyPS{ops}, map[string]ccOnlyPS{"k": ops}, []interface{}{oa, ops}} {
+		cases++
+		ccCompareMarshal(t, fmt.Sprintf("encode:recursive-direct#%d", k), fmt.Sprintf("%T", v), v)
+	}
 	// recursion boundaries and the option word: EncodeNullForInfOrNan prints null exactly
 	// where the value is not finite, at every depth and through every kind of edge
 	nullForNaN := Config{EscapeHTML: true, SortMapKeys: true, CompactMarshaler: true, CopyString: true, ValidateString: true, EncodeNullForInfOrNan: true}.Froze()
@@ -496,7 +566,7 @@ var ccRaws = []string{
 	"1.0", "1.5", "1e2", "1E-2", "-0.0", "3.4028235e38", "3.4028235677973366e38", "3.4028236e38", "1e39", "1.000000059604644775390625", "1.000000059604644775390625000000000001", "1.00000005960464477539062499999999999", "7.038531e-26", "1.00000017881393432617187499", "1e308", "1e309", "1e-400", "01", "1.", ".5", "-", "+1", "1e", "0x10",
 	`""`, `"a"`, `"1"`, `"-1"`, `"128"`, `"255"`, `"256"`, `"32768"`, `"65535"`, `"65536"`, `"1.5"`, `"3.4028235677973366e38"`, `"1e39"`, `" 1"`, `"1 "`, `"true"`, `"false"`, `"null"`, `"\"a\""`, `"\"1\""`,
 	`"1`, `1"`, `"a`, `"é\n"`, `"\ud800"`, `"𐀀"`, `"\udc00x"`, `"\x"`, "\"\xff\"", "\"a\x01\"", `"aGVsbG8="`, `"aGVsbG8"`, `"+/8="`, `"-_8="`, `"!!!!"`,
-	"null", "true", "false", "tru", "nul", "[]", "[1]", "[1,2]", "[1,2,3]", "[256,\"a\"]", "[1,]", "[", "{}", `{"x":256}`, `{"x":"1"}`, `{"X":7,"x":8}`, `{"a":1,"a":2}`, `{"x":1,}`, `{"x"}`, "{",
+	"null", "true", "false", "tru", "nul", "[]", "[1]", "[1,2]", "[1,2,3]", "[256,\"a\"]", "[1,]", "[", "{}", `{"x":256}`, `{"x":"1"}`, `{"X":7,"x":8}`, `{"a":1,"a":2}`, `{"x":1,}`, `{"x"}`, "{", `{"key":[1,2],"other":[]}`, `{"key":"value","k2":"a\"b","0123456789abcdef0123456789abcdef":"0123456789abcdef0123456789abcdef"}`,
 }
 
 func ccEqual(a, b interface{}) bool {
@@ -564,6 +634,27 @@ func ccDeepEq(a, b reflect.Value) bool {
 	}
 }
 
+var ccUnicodeErrors = Config{EscapeHTML: true, SortMapKeys: true, CompactMarshaler: true, CopyString: true, ValidateString: true, UseUnicodeErrors: true}.Froze()
+
+// ccHoldsText: destinations that store the decoded text of a JSON string (so that a lone
+// surrogate escape must be reported with UseUnicodeErrors).
+func ccHoldsText(ty reflect.Type) bool {
+	switch ty.Kind() {
+	case reflect.String:
+		return ty != reflect.TypeOf(json.Number(""))
+	case reflect.Interface:
+		return true
+	case reflect.Ptr, reflect.Slice, reflect.Array:
+		if ty.Elem().Kind() == reflect.Uint8 {
+			return false
+		}
+		return ccHoldsText(ty.Elem())
+	case reflect.Map:
+		return ccHoldsText(ty.Elem())
+	}
+	return false
+}
+
 func ccCompareUnmarshal(t *testing.T, id string, ctx string, ty reflect.Type, doc string, useNumber bool) {
 	ccCompareUnmarshalPre(t, id, ctx, ty, "", doc, useNumber)
 }
@@ -591,6 +682,42 @@ func ccCompareUnmarshalPre(t *testing.T, id string, ctx string, ty reflect.Type,
 	} else {
 		werr = json.Unmarshal([]byte(doc), want.Interface())
 		gerr = ConfigStd.UnmarshalFromString(doc, got.Interface())
+	}
+	if !useNumber && pre == "" {
+		// ownership (CopyString is part of ConfigStd): the result must not change when the
+		// caller overwrites the input buffer afterwards
+		buf := []byte(doc)
+		got2 := reflect.New(ty)
+		if err2 := ConfigStd.Unmarshal(buf, got2.Interface()); (err2 == nil) != (gerr == nil) {
+			ccFail(t, id, "[%s] %s: Unmarshal accepts=%v, UnmarshalFromString accepts=%v", ctx, doc, err2 == nil, gerr == nil)
+		} else if err2 == nil {
+			for i := range buf {
+				buf[i] = '#'
+			}
+			if !ccDeepEq(got.Elem(), got2.Elem()) {
+				gj, _ := json.Marshal(got2.Interface())
+				ccFail(t, id, "[%s] %s: the decoded value changes when the input buffer is overwritten: %.300s", ctx, doc, gj)
+			}
+		}
+		// UseUnicodeErrors: a lone surrogate escape is an error, nothing else changes
+		got3 := reflect.New(ty)
+		err3 := ccUnicodeErrors.UnmarshalFromString(doc, got3.Interface())
+		lone := strings.Contains(doc, `\ud800"`) || strings.Contains(doc, `\udc00x`)
+		switch {
+		case werr != nil || (lone && gerr == nil && ccHoldsText(ty)):
+			if err3 == nil {
+				ccFail(t, id, "[%s] %s: accepted with UseUnicodeErrors (lone surrogate escape or an input encoding/json rejects)", ctx, doc)
+			}
+		case lone:
+			// destinations that never look at the text of the string: no expectation
+		default:
+			if err3 != nil {
+				ccFail(t, id, "[%s] %s: rejected with UseUnicodeErrors only -- %v", ctx, doc, err3)
+			} else if !ccDeepEq(want.Elem(), got3.Elem()) {
+				gj, _ := json.Marshal(got3.Interface())
+				ccFail(t, id, "[%s] %s: with UseUnicodeErrors sonic decodes it as %.300s", ctx, doc, gj)
+			}
+		}
 	}
 	if (werr == nil) != (gerr == nil) {
 		// (the text after " -- " is detail: it is not part of the comparison between back ends)
